@@ -846,8 +846,9 @@ def run(ctx, scale):
               "identical to the sampled set, square, or containing copies; noise none/scalar/vector/zero; ~20% constructor cases "
               "(0, -0, negative, subnormal negative, NaN, +inf, -inf, extreme valid values, empty and too short vectors, C0 inside "
               "the tensor kernel). non-trivial = some pair with r != 0 whose value has not underflowed; distinct by full canonical input")
-  ctx.partial = ["positive semi-definiteness of the Matern profiles exp(-r), (1+r)exp(-r), (1+r+r^2/3)exp(-r) is NOT proved "
-                 "(Schoenberg/Bochner): the exact rational LDL^T certificate on sampled Gram matrices is a TEST",
+  ctx.partial = ["positive semi-definiteness is now proved for all four radial profiles and the tensor kernel over the reals "
+                 "(radial_gram_posSemidef, multitask_gram_posSemidef: Gaussian scale mixtures, integrals proved from Mathlib); the exact "
+                 "rational LDL^T certificate on sampled Gram matrices remains as a run-time cross-check of the FLOAT matrices the library builds",
                  "IEEE rounding: value tolerance 1e-12 relative + 1e-300 absolute after the exact squared distance is allowed to move by "
                  "8(d+8) eps sum((|x|+|z|)/l)^2 (forward error bound of the three r^2 formulas in the code)",
                  "values below 1e-290*alpha (underflow region) are compared with the absolute tolerance only and not counted as non-trivial",
